@@ -37,8 +37,14 @@ Theorem C11_bounded_hash : terminates_after_cancel hash_net.
 Proof. exact (wf_net_terminates hash_net hash_net_wf). Qed.
 Print Assumptions C11_bounded_hash.
 
-(* send side, full statement.  Not provable on the unchanged tree: see below. *)
+(* send side: pipelineReadData, CalculateMD5, EncodeData (+ sendDataWriter.Write/deliver/Close),
+   SendData, RecvAck (+ RecvFinalAck), ShowProgress, sendFileDataV2.  Provable since the fix
+   of the buffer-size probing wait (KNOWN_FINDINGS: fixed bufinit-wait-leak); before it the
+   generated net had the violation (EncodeData, WgWait bufInitWG, W4). *)
 Definition C11_bounded_send_full : Prop := terminates_after_cancel send_net.
+Theorem C11_bounded_send : terminates_after_cancel send_net.
+Proof. exact (wf_net_terminates send_net send_net_wf). Qed.
+Print Assumptions C11_bounded_send.
 
 (* send side, what holds: the same statement for the net in which bufInitWG.Wait() is assumed
    to return; and that wait is the ONLY well-formedness violation of the generated send net
